@@ -99,6 +99,13 @@ Lemma ss_put_live r b it :
   ss_put (live r b) it = (live r (b ++ item_text it), map Call (calls_of [it])).
 Proof. destruct it; reflexivity. Qed.
 
+(* a callable is a callable: its C++ shape changes nothing in the model *)
+Lemma callable_kind_irrelevant k k' id ret x :
+  ss_put x (ICall k id ret) = ss_put x (ICall k' id ret)
+  /\ item_text (ICall k id ret) = item_text (ICall k' id ret)
+  /\ calls_of [ICall k id ret] = calls_of [ICall k' id ret].
+Proof. repeat split. Qed.
+
 Lemma ss_put_dead it : ss_put dead it = (dead, []).
 Proof. reflexivity. Qed.
 
